@@ -4,6 +4,7 @@ from typing import Iterator
 
 import json
 
+import core
 from core import Case, Prop, SelfCheckFailure, InfraError, run_driver
 from gen import hx, unhx, pool, rbytes
 
@@ -50,9 +51,20 @@ def _s1_fields(s: Service1Tm):
             "error_code": ec, "is_step_reply": bool(s.is_step_reply), "has_failure_notice": bool(s.has_failure_notice)}
 
 
+# the two exhaustive word sweeps decode 131 072 request IDs: they look back one object only (run time)
+_ISO_SWEEP = core.Isolation(keep=1)
+
+
+def _unpack_params(ts_len, step_bytes, err_bytes) -> UnpackParams:
+    """decoder configuration, one instance per distinct parameter set reused across calls (as programs do)"""
+    return core.REUSE.get(["s1-unpack-params", ts_len, step_bytes, err_bytes],
+                          lambda: UnpackParams(ts_len, step_bytes, err_bytes))
+
+
 def op_req_pack(a):
     r = _req(a)
-    raw = bytes(r.pack())
+    # (packs twice, the caller modifying the first returned buffer in between)
+    raw = core.pack_stable(r, "RequestId.pack()")
     h = SpacePacketHeader(packet_type=PacketType(a["ptype"]), apid=a["apid"], seq_count=a["count"], data_len=0x1234,
                           sec_header_flag=bool(a["shf"]), seq_flags=SequenceFlags(a["flags"]), ccsds_version=a["version"])
     r2 = RequestId.from_sp_header(h)
@@ -63,7 +75,7 @@ def op_req_pack(a):
     if int.from_bytes(raw, "big") != r.as_u32():
         raise SelfCheckFailure("as_u32() is not the big-endian value of pack()")
     r3 = RequestId.unpack(raw)
-    if not (r3 == r) or _req_fields(r3) != _req_fields(r):
+    if not (r3 == r) or core.ISOLATION.check("RequestId", r3, _req_fields) != _req_fields(r):
         raise SelfCheckFailure("unpack(pack(req_id)) differs")
     return {"raw": hx(raw), "u32": int(r.as_u32())}
 
@@ -71,9 +83,11 @@ def op_req_pack(a):
 def op_req_unpack(a):
     raw = unhx(a["raw"])
     r = RequestId.unpack(raw)
-    if bytes(r.pack()) != raw[:4]:
+    # request IDs decoded by earlier calls must still show what they showed then
+    f = _ISO_SWEEP.check("RequestId", r, _req_fields)
+    if core.pack_stable(r, "RequestId.pack() of a decoded request id") != raw[:4]:
         raise SelfCheckFailure("pack(unpack(b)) != b[:4]")
-    return _req_fields(r)
+    return f
 
 
 def op_req_eq(a):
@@ -84,14 +98,15 @@ def op_req_eq(a):
 def op_pfe_unpack(a):
     raw = unhx(a["raw"])
     f = PacketFieldEnum.unpack(raw, a["pfc"])
-    if bytes(f.pack()) != raw[:f.len()]:
+    v = core.ISOLATION.check("PacketFieldEnum", f, _pfe_fields)
+    if core.pack_stable(f, "PacketFieldEnum.pack() of a decoded field") != raw[:f.len()]:
         raise SelfCheckFailure("PacketFieldEnum: pack(unpack(b)) != b[:width]")
-    return _pfe_fields(f)
+    return v
 
 
 def op_pfe_pack(a):
     f = PacketFieldEnum(a["pfc"], a["val"])
-    raw = bytes(f.pack())
+    raw = core.pack_stable(f, "PacketFieldEnum.pack()")
     if len(raw) != f.len():
         raise SelfCheckFailure("PacketFieldEnum: len(pack()) != len()")
     if int.from_bytes(raw, "big") != a["val"]:
@@ -121,12 +136,12 @@ def op_pfe_eq(a):
 
 def op_fn_pack(a):
     f = _fn(a)
-    raw = bytes(f.pack())
+    raw = core.pack_stable(f, "FailureNotice.pack()")
     if len(raw) != f.len():
         raise SelfCheckFailure("FailureNotice: len(pack()) != len()")
     w = f.code.len()
     f2 = FailureNotice.unpack(raw, w)
-    if _fn_fields(f2)["data"] != _fn_fields(f)["data"] or f2.code.val != f.code.val:
+    if core.ISOLATION.check("FailureNotice", f2, _fn_fields)["data"] != _fn_fields(f)["data"] or f2.code.val != f.code.val:
         raise SelfCheckFailure("FailureNotice: unpack(pack(f)) differs")
     if f.code.pfc == 8 * w and (not (f2 == f) or not (f == f2)):
         raise SelfCheckFailure("FailureNotice: unpack(pack(f)) != f under ==")
@@ -134,7 +149,7 @@ def op_fn_pack(a):
 
 
 def op_fn_unpack(a):
-    return _fn_fields(FailureNotice.unpack(unhx(a["raw"]), a["err_bytes"], a["data_bytes"]))
+    return core.ISOLATION.check("FailureNotice", FailureNotice.unpack(unhx(a["raw"]), a["err_bytes"], a["data_bytes"]), _fn_fields)
 
 
 def op_fn_eq(a):
@@ -150,7 +165,7 @@ def _params(p):
 
 def op_vp_pack(a):
     vp = _params(a["params"])
-    return {"raw": hx(vp.pack()), "len": int(vp.len())}
+    return {"raw": hx(core.pack_stable(vp, "VerificationParams.pack()")), "len": int(vp.len())}
 
 
 def op_vp_verify(a):
@@ -187,28 +202,28 @@ def _check_report(s: Service1Tm, vp: VerificationParams, raw: bytes, ts_len: int
     if vp.len() != len(src):
         raise SelfCheckFailure("VerificationParams.len() != len(source data)")
     step_b, err_b = _widths(vp)
-    s2 = Service1Tm.unpack(raw, UnpackParams(ts_len, step_b, err_b))
-    if _s1_fields(s2) != _s1_fields(s):
+    s2 = Service1Tm.unpack(raw, _unpack_params(ts_len, step_b, err_b))
+    if core.ISOLATION.check("Service1Tm", s2, _s1_fields) != _s1_fields(s):
         raise SelfCheckFailure("decoding the packed report with matching widths returns different values")
     if not (s2 == s) or not (s == s2):
         raise SelfCheckFailure("decoded report != original under ==")
-    if bytes(s2.pack()) != raw:
+    if core.pack_stable(s2, "Service1Tm.pack() of a decoded report") != raw:
         raise SelfCheckFailure("decoded report re-packs differently")
-    s3 = Service1Tm.from_tm(PusTm.unpack(raw, ts_len), UnpackParams(ts_len, step_b, err_b))
-    if not (s3 == s) or _s1_fields(s3) != _s1_fields(s):
+    s3 = Service1Tm.from_tm(PusTm.unpack(raw, ts_len), _unpack_params(ts_len, step_b, err_b))
+    if not (s3 == s) or core.ISOLATION.check("Service1Tm", s3, _s1_fields) != _s1_fields(s):
         raise SelfCheckFailure("from_tm(PusTm.unpack(...)) differs from the original report")
 
 
 def op_s1_pack(a):
     s, vp = _s1(a)
-    raw = bytes(s.pack())
+    raw = core.pack_stable(s, "Service1Tm.pack()")
     _check_report(s, vp, raw, len(unhx(a["timestamp"])))
     return {"raw": hx(raw), "s1": _s1_fields(s), "src": hx(s.source_data)}
 
 
 def op_s1_new(a):
     s, vp = _s1(a)
-    raw = bytes(s.pack())
+    raw = core.pack_stable(s, "Service1Tm.pack()")
     return {"raw": hx(raw), "s1": _s1_fields(s), "src": hx(s.source_data)}
 
 
@@ -252,7 +267,7 @@ def op_s1_create(a):
         s = s1.create_completion_failure_tm(apid, tc, fail, ts)
     else:
         raise ValueError("no such helper")
-    raw = bytes(s.pack())
+    raw = core.pack_stable(s, "Service1Tm.pack()")
     if bytes(s.source_data)[:4] != bytes(tc.sp_header.pack())[:4]:
         raise SelfCheckFailure("report does not carry the first four octets of the telecommand's space packet header")
     rq = RequestId.from_pus_tc(tc)
@@ -264,17 +279,19 @@ def op_s1_create(a):
 
 def op_s1_unpack(a):
     raw = unhx(a["raw"])
-    s = Service1Tm.unpack(raw, UnpackParams(a["ts_len"], a["step_bytes"], a["err_bytes"]))
-    if bytes(s.pack()) != raw[:s.pus_tm.packet_len]:
+    s = Service1Tm.unpack(raw, _unpack_params(a["ts_len"], a["step_bytes"], a["err_bytes"]))
+    # reports decoded by earlier calls must still show what they showed then
+    f = core.ISOLATION.check("Service1Tm", s, _s1_fields)
+    if core.pack_stable(s, "Service1Tm.pack() of a decoded report") != raw[:s.pus_tm.packet_len]:
         raise SelfCheckFailure("pack(unpack(b)) != b[:packet_len]")
-    if bytes(s.tc_req_id.pack()) != bytes(s.source_data)[:4]:
+    if core.pack_stable(s.tc_req_id, "RequestId.pack() of a decoded report") != bytes(s.source_data)[:4]:
         raise SelfCheckFailure("decoded request id is not the first four octets of the source data")
-    return _s1_fields(s)
+    return f
 
 
 def op_s1_from_tm(a):
     tm = PusTm.unpack(unhx(a["raw"]), a["ts_len"])
-    return _s1_fields(Service1Tm.from_tm(tm, UnpackParams(a["ts_len"], a["step_bytes"], a["err_bytes"])))
+    return core.ISOLATION.check("Service1Tm", Service1Tm.from_tm(tm, _unpack_params(a["ts_len"], a["step_bytes"], a["err_bytes"])), _s1_fields)
 
 
 OPS = {"req_pack": op_req_pack, "req_unpack": op_req_unpack, "req_eq": op_req_eq, "pfe_unpack": op_pfe_unpack,
@@ -691,6 +708,17 @@ class C15(Prop):
                     yield Case({"op": "s1_unpack", "raw": hx(bytes(m)), "ts_len": ts, "step_bytes": sw, "err_bytes": ew}, "invalid", tag="bit-flip")
                     if pos >= 13 + ts and pos < len(raw) - 2 and rng.random() < 0.5:
                         yield Case({"op": "s1_unpack", "raw": hx(refit_crc(bytes(m))), "ts_len": ts, "step_bytes": sw, "err_bytes": ew}, "any", tag="source-data-substitution")
+        # back-to-back decodes of different reports (other subservice, widths, timestamp length, request id) with the
+        # reused decoder configurations: a report decoded earlier must not follow a later decode
+        def dec_case(a, raw):
+            p = a["params"]
+            return Case({"op": "s1_unpack", "raw": hx(raw + rbytes(rng, 2)), "ts_len": len(a["timestamp"]) // 2,
+                         "step_bytes": p["step_id"]["pfc"] // 8 if p["step_id"] else 1,
+                         "err_bytes": p["failure"]["code"]["pfc"] // 8 if p["failure"] else 1}, "valid", tag="decode-sequence")
+        for i in range(0, min(n_dec, 240 if thorough else 120) - 1, 2):
+            for j in (i, i + 1, i):
+                yield dec_case(dec_args[j], dec_raw[j])
+            yield Case({"op": "req_unpack", "raw": hx(dec_raw[i][13 + len(dec_args[i]["timestamp"]) // 2:][:4])}, "valid", tag="decode-sequence")
         for raw, (ts, sw, ew, full) in zip(model_pack(short_ops), short_meta):
             yield Case({"op": "s1_unpack", "raw": hx(raw), "ts_len": ts, "step_bytes": sw, "err_bytes": ew},
                        "valid" if full else "invalid", tag="short-source-data")
